@@ -9,7 +9,7 @@ from .bexp import TRUE, FALSE, AND, OR, NOT, const
 from .values import (Sym, Union, VObj, VInst, VList, VDict, VSet, VCell, VFunc, VMethod, VBuiltinMethod, VIter,
                      VGen, VSuper, VModel, SlotRef, NULL, UNDEF, Unsupported, merge, mk_union, alts_of, truth,
                      sym_bool, is_concrete, sym_binop, _CMP, _ARITH)
-from .vm import op, VM, VMRaise, JUMPED, MISSING, static_lookup, CodeInfo, Frame, vmerge
+from .vm import op, VM, VMRaise, JUMPED, MISSING, static_lookup, CodeInfo, Frame, vmerge, mark_fork
 from . import containers as C
 
 # ------------------------------------------------------------------------------- trivial / stack
@@ -100,7 +100,7 @@ def _check_bound(vm, s, v, name):
     if bad:
         b = OR(*bad)
         good = [(g, x) for g, x in v.alts if x is not NULL and x is not UNDEF and AND(s.guard, g) is not FALSE]
-        if vm.feasible(AND(s.guard, b)):
+        if vm.feasible(AND(s.guard, s.cg, b)):
             if not good:
                 raise VMRaise(UnboundLocalError(f"'{name}' unbound"))
             vm.raise_under(s, b, UnboundLocalError(f"'{name}' possibly unbound"))
@@ -236,6 +236,7 @@ def _branch(vm, s, f, c, target):
         f.pc = target
         return JUMPED
     s2 = s.copy(gf)
+    mark_fork(s.guard, [s, s2])
     s2.frames[-1].pc += 1
     s.guard = gt
     f.pc = target
@@ -302,20 +303,25 @@ def lift2(vm, s, a, b, fn):
         except Exception as e:
             raise VMRaise(e)
     out = []
-    for ga, x in alts_of(a):
-        for gb, y in alts_of(b):
-            g = AND(ga, gb)
-            if g is FALSE or AND(s.guard, g) is FALSE:
-                continue
-            try:
-                out.append((g, fn(x, y)))
-            except VMRaise as e:
-                vm.raise_under(s, g, e.exc)
-            except Unsupported:
-                if vm.feasible(AND(s.guard, g)):
-                    raise
-            except Exception as e:
-                vm.raise_under(s, g, e)
+    cg0 = s.cg
+    try:
+        for ga, x in alts_of(a):
+            for gb, y in alts_of(b):
+                g = AND(ga, gb)
+                if g is FALSE or AND(s.guard, g) is FALSE:
+                    continue
+                s.cg = AND(cg0, g)
+                try:
+                    out.append((g, fn(x, y)))
+                except VMRaise as e:
+                    vm.raise_under(s, TRUE, e.exc)
+                except Unsupported:
+                    if vm.feasible(AND(s.guard, s.cg)):
+                        raise
+                except Exception as e:
+                    vm.raise_under(s, TRUE, e)
+    finally:
+        s.cg = cg0
     return mk_union(out)
 
 
@@ -328,18 +334,23 @@ def lift1(vm, s, a, fn):
         except Exception as e:
             raise VMRaise(e)
     out = []
-    for ga, x in a.alts:
-        if AND(s.guard, ga) is FALSE:
-            continue
-        try:
-            out.append((ga, fn(x)))
-        except VMRaise as e:
-            vm.raise_under(s, ga, e.exc)
-        except Unsupported:
-            if vm.feasible(AND(s.guard, ga)):
-                raise
-        except Exception as e:
-            vm.raise_under(s, ga, e)
+    cg0 = s.cg
+    try:
+        for ga, x in a.alts:
+            if AND(s.guard, ga) is FALSE:
+                continue
+            s.cg = AND(cg0, ga)
+            try:
+                out.append((ga, fn(x)))
+            except VMRaise as e:
+                vm.raise_under(s, TRUE, e.exc)
+            except Unsupported:
+                if vm.feasible(AND(s.guard, s.cg)):
+                    raise
+            except Exception as e:
+                vm.raise_under(s, TRUE, e)
+    finally:
+        s.cg = cg0
     return mk_union(out)
 
 
@@ -686,7 +697,7 @@ def _unpack_sequence(vm, s, f, ins):
                 vm.raise_under(s, g, e.exc)
                 continue
             except Unsupported:
-                if vm.feasible(AND(s.guard, g)):
+                if vm.feasible(AND(s.guard, s.cg, g)):
                     raise
                 continue
             for i in range(n):
@@ -779,6 +790,7 @@ def _for_iter(vm, s, f, ins):
     gp = AND(s.guard, p)
     gn = AND(s.guard, NOT(p))
     out = []
+    g_before = s.guard
     if gn is not FALSE:
         s2 = s.copy(gn) if gp is not FALSE else s
         f2 = s2.frames[-1]
@@ -800,6 +812,8 @@ def _for_iter(vm, s, f, ins):
     if not out:
         s.guard = FALSE
         return JUMPED
+    if len(out) == 2:
+        mark_fork(g_before, out)
     return out
 
 
@@ -981,7 +995,7 @@ def inst_lookup(vm, s, inst, name, for_method=False):
             v = vm.project(s, v)
             if type(v) is Union and any(x is UNDEF for _, x in v.alts):
                 ub = OR(*[g for g, x in v.alts if x is UNDEF])
-                if not vm.feasible(AND(s.guard, ub)):
+                if not vm.feasible(AND(s.guard, s.cg, ub)):
                     v = mk_union([(g, x) for g, x in v.alts if x is not UNDEF])
         if type(v) is Union:
             bad = [g for g, x in v.alts if x is UNDEF]
@@ -1107,21 +1121,27 @@ def _load_attr(vm, s, f, ins):
         # try to resolve without forking
         res = []
         ok = True
-        for g, x in obj.alts:
-            try:
-                saved = s.guard
-                kind, v = load_attr_atomic(vm, s, x, name)
-            except _NeedCall:
-                ok = False
-                break
-            except VMRaise as e:
-                vm.raise_under(s, g, e.exc)
-                continue
-            except Unsupported:
-                if vm.feasible(AND(s.guard, g)):
-                    raise
-                continue
-            res.append((g, VMethod(v, x) if kind == "method" else v))
+        cg0 = s.cg
+        try:
+            for g, x in obj.alts:
+                s.cg = AND(cg0, g)
+                if AND(s.guard, s.cg) is FALSE:
+                    continue
+                try:
+                    kind, v = load_attr_atomic(vm, s, x, name)
+                except _NeedCall:
+                    ok = False
+                    break
+                except VMRaise as e:
+                    vm.raise_under(s, TRUE, e.exc)
+                    continue
+                except Unsupported:
+                    if vm.feasible(AND(s.guard, s.cg)):
+                        raise
+                    continue
+                res.append((g, VMethod(v, x) if kind == "method" else v))
+        finally:
+            s.cg = cg0
         if ok:
             v = mk_union(res)
             if method:
